@@ -247,6 +247,15 @@ Section Policies.
     | [] => []
     | m :: ms' => let s := run_policies chain (n + 4) (mk_input n m) in s :: run_messages chain (next s) ms'
     end.
+  (* The configuration of the policy objects may change between messages (Forward.add_mapping on a policy in
+     service, AddReceivedHeader.date_format, ...): every message is handled by the chain AS CONFIGURED AT
+     THAT MOMENT - Forward's rule list is whatever has been added so far - and by nothing remembered from an
+     earlier configuration (no compiled-rules cache).  Each message comes with the snapshot of the chain. *)
+  Fixpoint run_configured (n : N) (cms : list (list policy * msg)) : list st :=
+    match cms with
+    | [] => []
+    | (chain, m) :: r => let s := run_policies chain (n + 4) (mk_input n m) in s :: run_configured (next s) r
+    end.
   (* outcome of one message apart from object identities *)
   Definition outcome (s : st) : bool * list (bytes * list bytes * list header * bytes) :=
     (failed s, map content (results s)).
